@@ -6,7 +6,10 @@ CFG = {
                    "GeoProofs/Lemmas/RelateSpecLemmas.lean", "GeoProofs/Lemmas/RelateSpecLocate.lean",
                    "GeoProofs/Lemmas/RelateSpecBBox.lean", "GeoProofs/Lemmas/RelateSpecSwap.lean",
                    "GeoProofs/Lemmas/RelateSpecDisjoint.lean", "GeoProofs/Lemmas/RelateSpecRewrite.lean",
-                   "GeoProofs/Lemmas/RelateSpecReverse.lean"],
+                   "GeoProofs/Lemmas/RelateSpecReverse.lean", "GeoProofs/Lemmas/C01QAtoms.lean",
+                   "GeoProofs/Lemmas/C01QDisjoint.lean", "GeoProofs/Lemmas/C01QTypes.lean",
+                   "GeoProofs/Lemmas/C01QAreal.lean", "GeoProofs/Lemmas/C01QPoint.lean",
+                   "GeoProofs/Lemmas/C01QTriangle.lean", "GeoProofs/Lemmas/C01QLine.lean"],
     "rule": "ordered pairs (A, B) over all 10 geometry types (Geometry enum on both sides) drawn from one shared 3..6 grid: polyomino polygons with "
             "holes (incl. holes tangent to the shell), star polygons, rectangles with holes, corner-touching multipolygons, self-avoiding lattice "
             "paths, multi line strings sharing end points (mod-2 rule), half-grid points, same-dimension collections; each case also relates the "
@@ -49,9 +52,26 @@ MANIFEST = {
             "relateSpec_multiPolygon_member/_perm, relateSpec_lineString_reverse/_rotate, relateSpec_line_swap, relateSpec_multiLineString_member/_perm, "
             "relateSpec_multiPoint_perm, relateSpec_collection_perm, locate_collection_perm, relateParts_congr; via: intersection vertices independent of segment directions and of the order / multiplicity of "
             "the segments (segVertex_swap_left, segVertex_self, mem_pairVertices_iff), atoms of a segment independent of its direction "
-            "(mem_segAtoms_swap)). Not proved: "
-            "that the remaining cells (IE, BE, EI, EB) of separated operands equal the dimensions passed to compute_disjoint. The adequacy of the "
-            "specification w.r.t. point-set topology is an explicit assumption (S1, S2), not a theorem.",
+            "(mem_segAtoms_swap)). (7) disjoint-envelope shortcut, full equality: the vertices on a segment are sorted, so the midpoint of an "
+            "elementary sub-segment is never an arrangement vertex and every atom is a vertex atom or sits at a non-vertex point of a non-degenerate "
+            "segment (mem_atomsOf_cases, exists_atoms_of_seg); for separated operands the cell (X, Exterior) is the largest dimension of an atom located X "
+            "(cell_of_rowMax) and the whole matrix equals compute_disjoint of the row maxima (relateParts_disjoint_eq); HasDimensions = row maxima "
+            "(Spec.DimsSpec) is proved per type: dimsSpec_point, dimsSpec_multiPoint, dimsSpec_line (degenerate included), dimsSpec_lineString (open / "
+            "closed / constant; any length except one coordinate), dimsSpec_multiLineString (boundary by the mod-2 rule across members: count_mlsEnds ties "
+            "the fixed boundary_dimensions to the specification's end point count), dimsSpec_rect (positive width and height; interior face sample "
+            "computed, rect_interior_sample), dimsSpec_triangle (non-collinear; winding number of the face sample beside the first edge is +-1 in every "
+            "position, triangle_interior_sample), dimsSpec_polygon_partial / dimsSpec_multiPolygon_partial (given an interior face sample, "
+            "Spec.HasInteriorSample: S2-type fact, hypothesis); hence relateSpec a b = computeDisjoint (dims a) (boundaryDims a) (dims b) (boundaryDims b) "
+            "for separated operands of these types (relateSpec_disjoint_eq_partial, relateSpec_sep_row, relateSpec_sep_col); excluded classes with witnesses: "
+            "one-coordinate LineString, degenerate Rect, collinear Triangle (dimsSpec_*_witness: HasDimensions and the specification disagree there); "
+            "collections are not covered (boundary_dimensions of a collection is the maximum over members, the specification applies the mod-2 rule across "
+            "members). (8) spec adequacy S1, restricted forms proved against the point-set definition: rows / columns Interior and Boundary of a Point "
+            "against any geometry, cell by cell (relateSpec_point_row, relateSpec_point_col), full matrices Point x Point, Line x Point, Point x Line "
+            "(relateSpec_point_point, relateSpec_line_point, relateSpec_point_line); two segments: II != F iff the open segments share a point, II = 1 iff "
+            "the segments share more than one point (relateSpec_line_line_ii, relateSpec_line_line_ii_one, via li_single_exact / li_collinear_exact and "
+            "exists_atom_between: between two vertices on a segment lies an elementary sub-segment midpoint). Not proved: DimsSpec for polygons without the "
+            "interior-sample hypothesis and for collections; cell_complete beyond the forms in (8). The adequacy of the "
+            "specification w.r.t. point-set topology in general remains an explicit assumption (S1, S2), not a theorem.",
     "note": "Trusted: Lean kernel + audited axioms; the harness/generators (sampling); spec adequacy S1/S2. Defects found by this check and repaired in /repo: "
             "Triangle vertical edge (29720670), MultiPolygon shared vertex (5f41a6da), MultiLineString boundary_dimensions mod-2 (17c66966).",
 }
